@@ -809,7 +809,7 @@ Example ex_skel_roundtrip :
             rs_cms r = [(["t"; "@height"], "mean"); ([], "point")].
 Proof. eexists. split; [vm_compute; reflexivity|]. vm_compute. splits; reflexivity. Qed.
 
-(* the dimension name set on the second of two 2-vertex bounds is dropped *)
+(* two 2-vertex bounds, the second with a netCDF dimension name set *)
 Definition bd_skel : skel :=
   {| f_std := None; f_ncvar := None;
      f_axes := [ex_axis 3 None false; ex_axis 2 None false];
@@ -832,12 +832,10 @@ Proof.
   - intros a [H|[H|[]]]; subst; simpl; exact I.
 Qed.
 
-Lemma bounds_dimension_name_refuted :
-  exists o f, wf f /\ (exists c b, In c (f_cons f) /\ c_bounds c = Some b /\ b_ncdim b = Some "nv") /\
-    forall r, read_skel (write_skel o f) = [r] -> forall rc, In rc (rs_cons r) -> r_bdim rc <> Some "nv".
+(* with C01-fix3-3 the dimension name set on the second of two 2-vertex bounds is kept (it was dropped by the
+   superseded code: Refuted.v, C01_bounds_dimension_name_old_refuted) *)
+Lemma bounds_dimension_name_kept_example :
+  exists r, read_skel (write_skel o0 bd_skel) = [r] /\ exists rc, In rc (rs_cons r) /\ r_bdim rc = Some "nv".
 Proof.
-  exists o0, bd_skel. split; [exact bd_skel_wf|]. split.
-  - eexists; eexists. split; [right; left; reflexivity|]. split; reflexivity.
-  - intros r H. vm_compute in H. inversion H; subst; clear H. simpl.
-    intros rc [Hc|[Hc|[]]]; subst; simpl; discriminate.
+  eexists. split; [vm_compute; reflexivity|]. eexists. split; [right; left; reflexivity|]. reflexivity.
 Qed.
